@@ -942,6 +942,261 @@ def oracle_retained(case):
     return problems
 
 
+# ------------------------------------------------------------------ mixed precision of the arguments
+# Quantifier covered: "for ALL arrays ... (tas, tasmin, tasmax)" / "(pr, prsn)" — the arrays of ONE call are separate objects
+# and each comes in its own dtype: tas as float64 out of a debiaser while tasrange / tasskew were stored in single (or half)
+# precision, integer-packed observations beside float model output, ...  The other generators give every argument of a call
+# values k/64 (representable in every floating dtype), and the layout oracle judges a call with one single-precision
+# argument at single-precision tolerance as a whole — so a result that silently loses the precision of its FINER argument
+# (computed in, or written into a buffer of, the coarser dtype) was indistinguishable.  Here every argument carries values
+# with the full mantissa of its own dtype (not representable in the coarser dtype of its neighbours), and every clause is
+# judged against the exact rational value of the anchored formula on the values as given.  Tolerance: the forward error bound
+# of that formula when every operation is rounded at numpy's promoted dtype of ITS operands (4 eps of that dtype, relative to
+# the operands of that operation) — i.e. each argument may cost what its own precision explains and nothing more.
+PREC_FLOATS = ["float64", "float32", "float16"]
+PREC_INTS = ["int16", "int32", "int64"]
+PREC_K = 4.0
+
+
+def _prec_eps(div, *dts):
+    """(eps, smallest subnormal) of the dtype in which numpy evaluates one operation on operands of dtypes dts;
+    integer +, -, * are exact; a quotient of integers is float64"""
+    rt = np.result_type(*[np.dtype(d) for d in dts])
+    if rt.kind != "f":
+        if not div:
+            return 0.0, 0.0, rt
+        rt = np.dtype("float64")
+    fi = np.finfo(rt)
+    return float(fi.eps), float(fi.smallest_subnormal), rt
+
+
+def _prec_cast(x, dt):
+    """x as a python float holding exactly the value that dtype dt stores for it (integers: rounded)"""
+    d = np.dtype(dt)
+    return float(np.array(round(x) if d.kind in "iu" else x, dtype=float).astype(d))
+
+
+def _prec_dtypes(rng, names, frac=()):
+    """one dtype per argument; fractional arguments (skew, ratio) are floating.  Patterns: one argument finer than the rest,
+    one coarser, all different at random, all equal (control)"""
+    pat = rng.choice(["finer", "finer", "coarser", "random", "random", "equal"])
+    fl = lambda: rng.choice(["float64", "float64", "float32", "float32", "float32", "float16"])  # noqa: E731
+    if pat == "equal":
+        d = fl()
+        out = {a: d for a in names}
+    elif pat in ("finer", "coarser"):
+        lo, hi = rng.choice([("float32", "float64"), ("float32", "float64"), ("float16", "float32"), ("float16", "float64")])
+        odd = rng.choice(names)
+        out = {a: ((hi if pat == "finer" else lo) if a == odd else (lo if pat == "finer" else hi)) for a in names}
+    else:
+        out = {a: fl() for a in names}
+    if rng.random() < 0.25:  # integer data (whole Kelvin / packed) beside floating data
+        cand = [a for a in names if a not in frac]
+        if cand:
+            out[rng.choice(cand)] = rng.choice(PREC_INTS)
+    return out
+
+
+def gen_precision(rng, tier, family):
+    """family 'tas' (tas, tasmin, tasmax with tasmin < tasmax, tasmin <= tas <= tasmax AS STORED VALUES), 'inv' (tas, tasrange >= 0,
+    0 <= tasskew <= 1), 'pr' (pr > 0, 0 <= prsn <= pr, and a ratio q in [0, 1] of its own dtype for the single formulas)"""
+    while True:
+        shape = gen_shape(rng, tier)
+        if int(np.prod(shape)) > 0:
+            break
+    n = int(np.prod(shape))
+    names = {"tas": ("tas", "tasmin", "tasmax"), "inv": ("tas", "r", "s"), "pr": ("pr", "prsn", "q")}[family]
+    dts = _prec_dtypes(rng, list(names), frac=("s", "q"))
+    if family == "pr":  # half precision cannot hold fluxes (kg m-2 s-1 are subnormal there): single / double / integers only
+        dts = {a: ("float32" if d == "float16" else d) for a, d in dts.items()}
+    kelvin = rng.random() < 0.4
+    scale = rng.choice([1, 8, 64, 320])
+    anyint = any(np.dtype(d).kind in "iu" for d in dts.values())
+    unit = 1.0 if anyint else 2.0 ** -rng.choice([0, 0, 10, 17, 20])
+    cols = {a: [] for a in names}
+    for _ in range(n):
+        for attempt in range(200):
+            if family == "tas":
+                lo = _prec_cast(rng.uniform(230.0, 320.0) if kelvin else rng.uniform(-scale, scale), dts["tasmin"])
+                hi = _prec_cast(lo + rng.choice([rng.uniform(2.0 ** -6, 40.0), rng.uniform(1.0, 40.0), float(rng.randint(1, 40))]), dts["tasmax"])
+                kind = rng.choice(["in", "in", "in", "min", "max", "nearmin", "nearmax"]) if attempt < 100 else "in"
+                e = (hi - lo) * 2.0 ** -rng.randint(8, 30)
+                t = _prec_cast({"in": lo + rng.random() * (hi - lo), "min": lo, "max": hi, "nearmin": lo + e, "nearmax": hi - e}[kind], dts["tas"])
+                if lo < hi and lo <= t <= hi:
+                    for a, x in zip(names, (t, lo, hi)):
+                        cols[a].append(x)
+                    break
+            elif family == "inv":
+                t = _prec_cast(rng.uniform(230.0, 320.0) if kelvin else rng.uniform(-scale, scale), dts["tas"])
+                r = _prec_cast(rng.choice([0.0, rng.uniform(0.0, 40.0), rng.uniform(0.0, 40.0), rng.randint(0, 2560) / 64.0]), dts["r"])
+                s = _prec_cast(rng.choice([0.0, 1.0, rng.random(), rng.random(), rng.randint(0, 64) / 64.0, 2.0 ** -rng.randint(8, 40),
+                                           1 - 2.0 ** -rng.randint(8, 40)]), dts["s"])
+                if r >= 0 and 0 <= s <= 1:
+                    for a, x in zip(names, (t, r, s)):
+                        cols[a].append(x)
+                    break
+            else:
+                p = _prec_cast((float(rng.randint(1, 200)) if anyint else rng.uniform(2.0 ** -6, 50.0)) * unit, dts["pr"])
+                f = 2.0 ** -rng.randint(8, 38)
+                sn = _prec_cast(rng.choice([0.0, p, rng.random() * p, rng.random() * p, p * f, p - p * f]), dts["prsn"])
+                q = _prec_cast(rng.choice([0.0, 1.0, rng.random(), rng.random(), f, 1 - f]), dts["q"])
+                if p > 0 and 0 <= sn <= p and 0 <= q <= 1:
+                    for a, x in zip(names, (p, sn, q)):
+                        cols[a].append(x)
+                    break
+        else:
+            raise AssertionError("generator: no well-formed element found for " + str(dts))
+    return {"family": "precision-" + family, "shape": list(shape), "dtypes": dts, **{a: np.array(c).reshape(shape).tolist() for a, c in cols.items()}}
+
+
+def _fr(a):
+    return [Fraction(float(x)) for x in np.asarray(a, dtype=float).reshape(-1)]
+
+
+def _prec_bad(got, exact, tol):
+    """element mask (flat): got (array) is not the exact value (list of Fraction, None = undefined: got must be non-finite)
+    within tol (flat float array)"""
+    g = np.asarray(got, dtype=float).reshape(-1)
+    bad = np.zeros(g.size, dtype=bool)
+    err = np.zeros(g.size)
+    for i, (x, e) in enumerate(zip(g, exact)):
+        if e is None:
+            bad[i] = bool(np.isfinite(x))
+        elif not np.isfinite(x):
+            bad[i] = True
+        else:
+            err[i] = float(abs(Fraction(float(x)) - e))
+            bad[i] = not (err[i] <= tol[i])
+    return bad, err
+
+
+@no_raise
+def oracle_precision(case):
+    """C18 for arguments of different precision (see the section comment).  Clauses judged: every function = its anchored formula
+    of the values as given; paired = single functions; the round trip returns tasmin / tasmax; tasmin <= tas <= tasmax for
+    0 <= tasskew <= 1, tasrange >= 0; prsnratio in [0, 1] and pr / prsn recovered; the shape is kept; no argument is changed."""
+    u = U()
+    fam, dts, shape = case["family"], case["dtypes"], tuple(case["shape"])
+    A = lambda k: np.asarray(case[k], dtype=float).astype(dts[k]).reshape(shape)  # noqa: E731
+    F = lambda a: np.asarray(a, dtype=float).reshape(-1)  # noqa: E731
+    K = PREC_K
+    problems = []
+    what = ", ".join(f"{a}: {d}" for a, d in dts.items())
+
+    def judge(desc, got, exact, tol, **shown):
+        if np.shape(got) != shape:
+            problems.append((f"{desc}: the result has shape {np.shape(got)}, the inputs {shape}", {"dtypes": what}))
+            return
+        bad, err = _prec_bad(got, exact, tol)
+        if np.any(bad):
+            i = int(np.argmax(bad))
+            problems.append((f"{desc} beyond what the precision of the arguments explains",
+                             {"dtypes": what, "result_dtype": str(np.asarray(got).dtype), "flat_index": i, "n_bad": int(bad.sum()), "got": float(F(got)[i]),
+                              "exact": None if exact[i] is None else float(exact[i]), "error": float(err[i]), "allowed": float(tol[i]),
+                              **{k: float(F(a)[i]) for k, a in shown.items()}}))
+
+    def same(desc, a, b):
+        if np.shape(a) != np.shape(b) or not np.array_equal(np.asarray(a), np.asarray(b), equal_nan=True):
+            problems.append((desc, {"dtypes": what}))
+
+    with warnings.catch_warnings(), np.errstate(all="ignore"):
+        warnings.simplefilter("ignore")
+        if fam == "precision-pr":
+            pr, prsn, q = A("pr"), A("prsn"), A("q")
+            args = (pr, prsn, q)
+            snap = [a.tobytes() for a in args]
+            ratio = u.get_prsnratio(pr, prsn)
+            s_own, p_own = u.get_prsn(pr, q), u.get_pr(prsn, q)
+            back = None
+            if np.shape(ratio) == shape:
+                back = (u.get_prsn(pr, ratio), u.get_pr(prsn, ratio))
+            ec, tc, _ = _prec_eps(True, dts["pr"], dts["prsn"])
+            xp, xs, xq = _fr(pr), _fr(prsn), _fr(q)
+            judge("get_prsnratio differs from prsn / pr", ratio, [b / a for a, b in zip(xp, xs)], K * ec * F(prsn) / F(pr) + 4 * tc, pr=pr, prsn=prsn)
+            e1, t1, _ = _prec_eps(False, dts["pr"], dts["q"])
+            judge("get_prsn differs from prsnratio * pr", s_own, [a * b for a, b in zip(xq, xp)], K * e1 * F(q) * F(pr) + 4 * t1, pr=pr, prsnratio=q)
+            e2, t2, _ = _prec_eps(True, dts["prsn"], dts["q"])
+            judge("get_pr differs from prsn / prsnratio", p_own, [None if b == 0 else a / b for a, b in zip(xs, xq)],
+                  K * e2 * F(prsn) / np.where(F(q) == 0, 1.0, F(q)) + 4 * t2, prsn=prsn, prsnratio=q)
+            if back is not None and not problems:
+                rq = F(ratio)
+                if np.any(~((rq >= 0) & (rq <= 1))):
+                    problems.append(("prsnratio outside [0,1] for 0 <= prsn <= pr, pr > 0", {"dtypes": what, **_rows(~((rq >= 0) & (rq <= 1)), pr=F(pr), prsn=F(prsn), prsnratio=rq)}))
+                judge("get_prsn(pr, get_prsnratio(pr, prsn)) differs from prsn", back[0], xs, 3 * K * ec * F(prsn) + 8 * tc, pr=pr, prsn=prsn, prsnratio=ratio)
+                snow = F(prsn) > 0
+                judge("get_pr(prsn, get_prsnratio(pr, prsn)) differs from pr where prsn > 0", np.where(snow.reshape(shape), np.asarray(back[1], dtype=float), F(pr).reshape(shape)),
+                      xp, 3 * K * ec * F(pr) + 8 * tc, pr=pr, prsn=prsn, prsnratio=ratio)
+        elif fam == "precision-inv":
+            tas, r, s = A("tas"), A("r"), A("s")
+            args = (tas, r, s)
+            snap = [a.tobytes() for a in args]
+            mn, mx = u.get_tasmin_tasmax(tas, r, s)
+            mn1, mx1 = u.get_tasmin(tas, r, s), u.get_tasmax(tas, r, s)
+            same("get_tasmin_tasmax differs from (get_tasmin, get_tasmax)", mn, mn1)
+            same("get_tasmin_tasmax differs from (get_tasmin, get_tasmax)", mx, mx1)
+            esr, tsr, dsr = _prec_eps(False, dts["s"], dts["r"])
+            eo, to, _ = _prec_eps(False, dts["tas"], dsr)
+            xt, xr, xs = _fr(tas), _fr(r), _fr(s)
+            off = F(s) * F(r)
+            tol_mn = K * (esr * off + eo * np.maximum(np.abs(F(tas)), off)) + 4 * (tsr + to)
+            xmn = [t - b * a for t, a, b in zip(xt, xr, xs)]
+            judge("get_tasmin differs from tas - tasskew * tasrange", mn, xmn, tol_mn, tas=tas, tasrange=r, tasskew=s)
+            fmn = np.array([float(x) for x in xmn])
+            tol_mx = tol_mn + K * eo * np.maximum(np.abs(fmn), F(r))
+            judge("get_tasmax differs from tasmin + tasrange", mx, [m + a for m, a in zip(xmn, xr)], tol_mx, tas=tas, tasrange=r, tasskew=s)
+            if np.shape(mn) == shape and np.shape(mx) == shape:  # the property's own clause, judged whatever the formulas above said
+                lo_ok = F(mn) <= F(tas) + K * eo * np.abs(F(tas))
+                hi_ok = F(tas) <= F(mx) + K * eo * (np.abs(F(tas)) + F(r))
+                bad = ~(lo_ok & hi_ok)
+                if np.any(bad):
+                    problems.append(("tasmin <= tas <= tasmax violated for 0 <= tasskew <= 1, tasrange >= 0",
+                                     {"dtypes": what, **_rows(bad, tas=F(tas), tasrange=F(r), tasskew=F(s), tasmin=F(mn), tasmax=F(mx))}))
+        else:
+            tas, tasmin, tasmax = A("tas"), A("tasmin"), A("tasmax")
+            args = (tas, tasmin, tasmax)
+            snap = [a.tobytes() for a in args]
+            r, s = u.get_tasrange_tasskew(tas, tasmin, tasmax)
+            r1, s1 = u.get_tasrange(tasmin, tasmax), u.get_tasskew(tas, tasmin, tasmax)
+            same("get_tasrange_tasskew differs from (get_tasrange, get_tasskew)", r, r1)
+            same("get_tasrange_tasskew differs from (get_tasrange, get_tasskew)", s, s1)
+            ea, ta, da = _prec_eps(False, dts["tasmin"], dts["tasmax"])  # the range
+            eb, tb, db = _prec_eps(False, dts["tas"], dts["tasmin"])  # the numerator of the skew
+            ec, tc, dc = _prec_eps(True, da, db)  # the quotient, and everything computed from it
+            xt, xn, xx = _fr(tas), _fr(tasmin), _fr(tasmax)
+            m_tn = np.maximum(np.abs(F(tas)), np.abs(F(tasmin)))
+            m_xn = np.maximum(np.abs(F(tasmax)), np.abs(F(tasmin)))
+            den = F(tasmax) - F(tasmin)
+            xsk = [(t - a) / (b - a) for t, a, b in zip(xt, xn, xx)]
+            fsk = np.array([float(x) for x in xsk])
+            tol_r = K * ea * m_xn + 4 * ta
+            tol_s = K * (eb * m_tn / den + ea * m_xn / den * fsk + ec * fsk) + 4 * tc
+            judge("get_tasrange differs from tasmax - tasmin", r, [b - a for a, b in zip(xn, xx)], tol_r, tasmin=tasmin, tasmax=tasmax)
+            judge("get_tasskew differs from (tas - tasmin) / (tasmax - tasmin)", s, xsk, tol_s, tas=tas, tasmin=tasmin, tasmax=tasmax)
+            if not problems:
+                rs_ok = (F(r) > 0) & (F(s) >= -tol_s) & (F(s) <= 1 + tol_s)
+                if np.any(~rs_ok):
+                    problems.append(("tasskew outside [0,1] or tasrange <= 0 for tasmin <= tas <= tasmax, tasmin < tasmax",
+                                     {"dtypes": what, **_rows(~rs_ok, tas=F(tas), tasmin=F(tasmin), tasmax=F(tasmax), tasrange=F(r), tasskew=F(s))}))
+                mn, mx = u.get_tasmin_tasmax(tas, r, s)
+                mn1, mx1 = u.get_tasmin(tas, r, s), u.get_tasmax(tas, r, s)
+                same("get_tasmin_tasmax differs from (get_tasmin, get_tasmax)", mn, mn1)
+                same("get_tasmin_tasmax differs from (get_tasmin, get_tasmax)", mx, mx1)
+                # propagated through range -> skew -> skew * range -> tas - .. (-> + range): see the section comment
+                tol_mn = K * (eb * m_tn + ea * m_xn * fsk + ec * (2 * (F(tas) - F(tasmin)) + m_tn)) + 4 * (ta + tb + tc)
+                tol_mx = tol_mn + K * (ea * m_xn + ec * np.abs(F(tasmax)))
+                judge("round trip does not return tasmin", mn, xn, tol_mn, tas=tas, tasmin=tasmin, tasmax=tasmax)
+                judge("round trip does not return tasmax", mx, xx, tol_mx, tas=tas, tasmin=tasmin, tasmax=tasmax)
+                if not problems:
+                    bad = ~((F(mn) <= F(tas) + tol_mn) & (F(tas) <= F(mx) + tol_mx))
+                    if np.any(bad):
+                        problems.append(("tasmin <= tas <= tasmax violated after the round trip",
+                                         {"dtypes": what, **_rows(bad, tas=F(tas), tasmin_back=F(mn), tasmax_back=F(mx))}))
+    for name, a, sn in zip(dts, args, snap):
+        if a.tobytes() != sn:
+            problems.append((f"a call changed its argument '{name}'", {"dtypes": what}))
+    return problems
+
+
 # ------------------------------------------------------------------ correspondence helpers
 def flat(a):
     return [float(x) for x in np.asarray(a, dtype=float).reshape(-1)]
@@ -978,7 +1233,9 @@ def run(tier, res, force_search=False):
                 "distinct = distinct (family, flavour, shape, values); plus call sequences (scripted stale-cache patterns + random calls / in-place "
                 "modifications) on the same array objects; plus dtype / memory-layout / singleton-axis / broadcasting variants of integer-valued data; "
                 "plus magnitudes k/64 * 2^e over the whole range of float64 / float32 (subnormal .. 2^1000); plus grids of 1e3 .. 1.5e6 values "
-                "(thorough 4e6), 2-3 data sets converted one after the other with every result re-judged after the later calls")
+                "(thorough 4e6), 2-3 data sets converted one after the other with every result re-judged after the later calls; plus arguments of "
+                "different precision in one call (float64 / float32 / float16 / integers per argument, full-mantissa values of each dtype), judged "
+                "against the exact rational formula with the forward error bound of numpy's type promotion")
     res.trusted = C.BASE_TRUSTED + [
         "numpy arithmetic on arrays is element-wise and shape-preserving; x/0 yields inf/NaN (modelled as Py.divE's error \"div0\")",
         "translator option partial_div: every `/` of a translated function is Py.divE; functions without `/` are total",
@@ -989,7 +1246,8 @@ def run(tier, res, force_search=False):
                        "(the specification is Model.Convert.run, Props.C18.call_fresh / calls_do_not_change_arrays; the driver op `seq` runs the "
                        "same scripts), logger verbosity / np.errstate / warnings filters / print options (process state), float rounding, "
                        "overflow / underflow at the ends of the floating range of the dtype (oracle_magnitude; over the rationals the theorems hold for "
-                       "every magnitude), array size and the persistence of a returned result while other arrays are converted (oracle_retained)",
+                       "every magnitude), array size and the persistence of a returned result while other arrays are converted (oracle_retained), "
+                       "the precision of a result when the arguments of one call have different dtypes (oracle_precision)",
                        "exact rational arithmetic: float rounding is carried by the tolerance (1e-12 relative for the round trip on the real code, 1e-9 for model vs code)",
                        "inputs are finite floats"]
 
@@ -1164,6 +1422,18 @@ def run(tier, res, force_search=False):
         for p, d in oracle_magnitude(mcase):
             problems_all.append((p, {"oracle": "magnitude", **mcase, "detail": d}))
 
+    # arguments of different precision (own PRNG stream: the case streams above and below do not shift)
+    rng_p = random.Random(C.seed() * 7919 + 1806)
+    n_prec = (30 if tier == "quick" else 300) * (3 if (force_search or not lean_ok) else 1)
+    for k in range(n_prec):
+        for fam in ("tas", "inv", "pr"):
+            pcase = gen_precision(rng_p, tier, fam)
+            mixed = len(set(pcase["dtypes"].values())) > 1
+            res.count(("precision", fam, str(sorted(pcase["dtypes"].items())), str(pcase[{"tas": "tas", "inv": "tas", "pr": "pr"}[fam]])), mixed,
+                      sample={kk: pcase[kk] for kk in ("family", "dtypes", "shape")} if (k == 0 and fam == "inv") else None)
+            for p, d in oracle_precision(pcase):
+                problems_all.append((p, {"oracle": "precision", **pcase, "detail": d}))
+
     # realistic grid sizes (1e3 .. 1.5e6 values, thorough: 4e6), several data sets converted one after the other, results kept
     classes = ["small", "small", "mid", "large"] if tier == "quick" else ["small"] * 6 + ["mid"] * 4 + ["large"] * 3 + ["huge"]
     if force_search or not lean_ok:
@@ -1273,6 +1543,8 @@ def replay(data):
         probs = oracle_magnitude(fi)
     elif fi["oracle"] == "retained":
         probs = oracle_retained(fi)
+    elif fi["oracle"] == "precision":
+        probs = oracle_precision(fi)
     elif fi["oracle"] == "tas":
         probs = oracle_tas(A("tas"), A("tasmin"), A("tasmax"))
     elif fi["oracle"] == "order":
